@@ -585,6 +585,9 @@ func (ex *Exec) globalObj(g *ssa.Global) *Object {
 		// sentinel error of another package: a unique non-nil error value
 		eo := ex.newObject("sentinel:"+g.String(), nil, StructV{F: []Value{StrV{T: Var("errmsg:"+g.String(), SInt)}}})
 		v = Ref1(IfaceT{Typ: sentinelType(g.String()), V: Ref1(AddrT{Obj: eo})})
+	} else if _, isPtr := et.Underlying().(*types.Pointer); isPtr && g.Pkg != ex.pkg {
+		// e.g. os.Stdout: a distinct non-nil opaque object
+		v = Ref1(AddrT{Obj: ex.newObject("extern:"+g.String(), nil, StructV{})})
 	} else {
 		v = ZeroValue(et)
 		if g.Pkg != ex.pkg {
